@@ -113,21 +113,6 @@ mod verif_kani_float {
         std::mem::forget(arena); // dropping the arena walks its slabs: irrelevant here and very costly for CBMC
     }
 
-    // rnd_i on a big integer: renormalised to a small integer iff the value fits (C05)
-    #[kani::proof]
-    #[kani::unwind(9)]
-    fn rnd_i_integer_arm() {
-        let v: i64 = kani::any();
-        let mut arena = Arena::new().unwrap();
-        let n = Number::Integer(arena_alloc!(Integer::from(v), &mut arena));
-        match rnd_i(&n, &mut arena) {
-            Ok(Number::Fixnum(x)) => { assert!(v >= -36028797018963968 && v <= 36028797018963967); assert!(x.get_num() == v); }
-            Ok(Number::Integer(_)) => assert!(v < -36028797018963968 || v > 36028797018963967),
-            _ => assert!(false),
-        }
-        std::mem::forget(arena);
-    }
-
     #[kani::proof]
     #[kani::unwind(9)]
     #[kani::stub(<dashu::integer::IBig as std::convert::TryFrom<f64>>::try_from, ibig_from_f64_stub)]
@@ -149,7 +134,6 @@ mod verif_kani_float {
         "classify_float_spec": {}, "float_fn_to_f_spec": {}, "add_f_spec": {}, "mul_f_spec": {}, "div_f_classes": {}, "number_float_predicates": {},
         "rnd_i_float": {"stubs": ["try_from"], "bound": "operand domain |f| <= 2^56 (beyond it the result is a bignum on every path); complete over that domain"},
         "rnd_i_nonfinite": {"stubs": ["try_from"]},
-        "rnd_i_integer_arm": {"tier": "thorough", "bound": "big integers that fit 64 bits (dashu's inline representation); larger ones take the same `else` branch"},
 
     },
 }
